@@ -392,6 +392,9 @@ func (e *Enc) havocAll(st *State) {
 }
 
 func (e *Enc) havocAllRaw(st *State) {
+	// heaps that are first touched after this point must not resolve to their entry value
+	e.epochCounter++
+	st.epochs = append(st.epochs, &lazyEpoch{id: e.epochCounter, all: true, names: map[string]bool{}})
 	names := map[string]Val{}
 	for n, h := range e.base {
 		names[n] = h
